@@ -9,7 +9,7 @@
 EXTENDS CompilePipeline
 
 Base == [fam |-> "", shape |-> "", mods |-> Mods, imp |-> {}, subs |-> {}, inc |-> {}, defs |-> {},
-         roots |-> {}, augs |-> {}, devs |-> {}, off |-> {}, alias |-> {}, spell |-> "u"]
+         roots |-> {}, augs |-> {}, devs |-> {}, off |-> {}, alias |-> {}, spell |-> "u", rpos |-> "container"]
 Spellings == {"u", "o", "mix"}
 
 \* ---- definition graphs: name -> set of referenced names ("z" is never defined)
@@ -30,18 +30,24 @@ ShapesOf(k) == IF k \in {"grouping", "feature"} THEN SingleRef \cup {"fan", "dag
 
 \* Places: the modules over which the definitions are spread ("a" always lives in m1)
 HomesOf(sh, Places) == {h \in [DOMAIN ShapeFn(sh) -> Places] : h["a"] = "m1"}
+\* <<position of the references of each definition, position of the using data node>>: every position once with every
+\* shape (all definitions of the instance in the same position, so that a cycle is closed through that position only)
+PosPairs(k) == CASE k = "grouping" -> {<<"direct", "container">>, <<"container", "list">>, <<"list", "choice">>, <<"choice", "rpc">>,
+                                       <<"augment", "notification">>, <<"inner", "container">>}
+                 [] k = "typedef" -> {<<"direct", "leaf">>, <<"union", "leaf-list">>, <<"direct", "union">>, <<"union", "leaf">>}
+                 [] k = "identity" -> {<<"direct", "leaf">>, <<"direct", "union">>, <<"direct", "typedef">>}
+                 [] OTHER -> {<<"direct", "leaf">>, <<"direct", "container">>, <<"direct", "list">>, <<"direct", "leaf-list">>}
 NestsOf(k, sh) == LET D == DOMAIN ShapeFn(sh) IN
-                  IF k # "grouping" THEN {[n \in D |-> FALSE]}
-                  ELSE {[n \in D |-> FALSE], [n \in D |-> TRUE]}
-                       \cup (IF sh \in {"fan", "dag"} THEN {[n \in D |-> n = x] : x \in D} ELSE {})
+                  {<<[n \in D |-> pp[1]], pp[2]>> : pp \in PosPairs(k)}
+                  \cup (IF k = "grouping" /\ sh \in {"fan", "dag"} THEN {<<[n \in D |-> IF n = x THEN "container" ELSE "direct"], "container">> : x \in D} ELSE {})
 
 DefInst(k, sh, home, nest, zm, rh, used, off, sp) ==
   LET F == ShapeFn(sh)
       refsOf(n) == {IF y = "z" THEN Ref(zm, "z") ELSE Ref(home[y], y) : y \in F[n]}
-      defs == {[k |-> k, n |-> n, home |-> home[n], refs |-> refsOf(n), nest |-> nest[n]] : n \in DOMAIN F}
+      defs == {[k |-> k, n |-> n, home |-> home[n], refs |-> refsOf(n), pos |-> nest[1][n]] : n \in DOMAIN F}
       need == UNION {{<<d.home, r.m>> : r \in {x \in d.refs : x.m # d.home}} : d \in defs}
               \cup (IF used /\ rh # "m1" THEN {<<rh, "m1">>} ELSE {})
-  IN [Base EXCEPT !.fam = k, !.shape = sh, !.defs = defs, !.imp = need, !.off = off, !.spell = sp,
+  IN [Base EXCEPT !.fam = k, !.shape = sh, !.defs = defs, !.imp = need, !.off = off, !.spell = sp, !.rpos = nest[2],
                   !.roots = IF used THEN {[home |-> rh, k |-> k, m |-> "m1", n |-> "a"]} ELSE {}]
 
 \* variants of one instance: an import statement missing; a module not supplied
@@ -68,9 +74,9 @@ DefFamily(k, sh, Places) ==
 \* in both roles), every reference is local to its scope, each copy is used by a data node of its own
 \* scope, and optionally a third module uses one of the top-level copies through its prefix.
 LocalDefs(k, sh, h, nest) ==
-  LET F == ShapeFn(sh) IN {[k |-> k, n |-> n, home |-> h, refs |-> {Ref(ModH(h), y) : y \in F[n]}, nest |-> nest] : n \in DOMAIN F}
+  LET F == ShapeFn(sh) IN {[k |-> k, n |-> n, home |-> h, refs |-> {Ref(ModH(h), y) : y \in F[n]}, pos |-> nest[1]] : n \in DOMAIN F}
 TwinInst(k, sh1, sh2, hh, nest, x, sp) ==
-  [Base EXCEPT !.fam = k, !.shape = "twin-" \o sh1 \o "-" \o sh2, !.spell = sp,
+  [Base EXCEPT !.fam = k, !.shape = "twin-" \o sh1 \o "-" \o sh2, !.spell = sp, !.rpos = nest[2],
                !.defs = LocalDefs(k, sh1, hh[1], nest) \cup LocalDefs(k, sh2, hh[2], nest),
                !.roots = {[home |-> h, k |-> k, m |-> ModH(h), n |-> "a"] : h \in {hh[1], hh[2]}}
                          \cup (IF x = "" THEN {} ELSE {[home |-> "m3", k |-> k, m |-> x, n |-> "a"]}),
@@ -83,7 +89,7 @@ TwinScopes(k) == {<<"m1", "m2">>, <<"m2", "m1">>}
 TwinFamily(k) ==
   UNION {{TwinInst(k, sh1, sh2, hh, nest, x, sp) : x \in {""} \cup {h \in {hh[1], hh[2]} : ~Scoped(h)}}
          : sp \in Spellings, sh1 \in {"single", "chain"}, sh2 \in {"single", "chain", "self", "cyc2", "cyc3", "lasso", "dang1", "dang"},
-           hh \in TwinScopes(k), nest \in (IF k = "grouping" THEN BOOLEAN ELSE {FALSE})}
+           hh \in TwinScopes(k), nest \in PosPairs(k)}
 
 \* ---- import graphs: every set of import statements between the supplied modules
 ImportFamily(present) ==
@@ -102,7 +108,7 @@ SubImportFamily ==
         [Base EXCEPT !.fam = "subimport", !.shape = (IF HasCycle(E \cup {<<"m1", e[2]>> : e \in S}) THEN "cyclic" ELSE "acyclic") \o (IF col THEN "-collide" ELSE ""),
                      !.imp = E \cup S, !.subs = {<<"s1", "m1">>}, !.inc = {<<"m1", "s1">>},
                      !.alias = IF col THEN {<<"s1", "m2", "pm3">>, <<"s1", "m3", "pm2">>} ELSE {},
-                     !.defs = IF aug THEN {[k |-> "grouping", n |-> "a", home |-> "m2", refs |-> {}, nest |-> FALSE]} ELSE {},
+                     !.defs = IF aug THEN {[k |-> "grouping", n |-> "a", home |-> "m2", refs |-> {}, pos |-> "direct"]} ELSE {},
                      !.roots = IF aug THEN {[home |-> "m2", k |-> "grouping", m |-> "m2", n |-> "a"]} ELSE {},
                      !.augs = IF aug THEN {[m |-> "s1", t |-> "m2", n |-> "a"]} ELSE {}]
   IN {One(E, S, col, FALSE) : E \in SUBSET ME, S \in (SUBSET SE) \ {{}}, col \in BOOLEAN}
@@ -140,25 +146,46 @@ AugDevInst(a2, a3, used, self, sp) ==
                        [] OTHER -> {} : m \in {"m2", "m3"}}
       imp == {<<"m2", "m1">>, <<"m3", "m1">>} \cup {<<m, other(m)>> : m \in {x \in {"m2", "m3"} : act(x) = "nsx"}}
   IN [Base EXCEPT !.fam = "augdev", !.shape = a2 \o "+" \o a3 \o (IF self THEN "+self" ELSE ""), !.spell = sp, !.imp = imp, !.augs = augs, !.devs = devs,
-                  !.defs = {[k |-> "grouping", n |-> "a", home |-> "m1", refs |-> {}, nest |-> FALSE]},
+                  !.defs = {[k |-> "grouping", n |-> "a", home |-> "m1", refs |-> {}, pos |-> "direct"]},
                   !.roots = IF used THEN {[home |-> "m1", k |-> "grouping", m |-> "m1", n |-> "a"]} ELSE {}]
 AugDevFamily == UNION {Variants(AugDevInst(a2, a3, used, self, sp)) : a2 \in Acts, a3 \in Acts, used \in BOOLEAN, self \in BOOLEAN, sp \in {"u", "o"}}
 
-\* ---- seeded combinations (code -> model): one instance of each of four families merged into one
-\* set of modules (grouping graph or augment/deviation case, typedef graph, identity graph, feature graph)
-AllShapes(k, Places) == UNION {DefFamily(k, sh, Places) : sh \in ShapesOf(k)}
-Full(S) == {I \in S : I.mods = Mods}
+\* ---- seeded sampling.  Every random parameter is bound by a singleton set, so it is drawn exactly once, and no
+\* family is materialised just to draw from it.
+ZSet(sh, Places) == IF "z" \in UNION {ShapeFn(sh)[n] : n \in DOMAIN ShapeFn(sh)} THEN Places ELSE {"m1"}
+OffSet(k, sh) == IF k = "feature" /\ ~Cyclic(sh) /\ sh \notin {"dang", "dang1"} THEN {{}} \cup {{n} : n \in DOMAIN ShapeFn(sh)} ELSE {{}}
+SampleDef(k, sh, Places) ==        \* one random member of DefFamily(k, sh, Places), as a singleton set
+  {RandomElement(Variants(DefInst(k, sh, home, nest, zm, rh, used, off, sp)))
+   : sp \in {RandomElement(Spellings)}, home \in {RandomElement(HomesOf(sh, Places))}, nest \in {RandomElement(NestsOf(k, sh))},
+     zm \in {RandomElement(ZSet(sh, Places))}, rh \in {RandomElement({"m1", "m2"})},
+     used \in {IF Cyclic(sh) THEN RandomElement(BOOLEAN) ELSE TRUE}, off \in {RandomElement(OffSet(k, sh))}}
+SampleDefs(k, sh, Places, n) == UNION {SampleDef(k, sh, Places) : i \in 1..n}
+SampleTwin(k) ==
+  UNION {{TwinInst(k, sh1, sh2, hh, nest, x, sp) : x \in {RandomElement({""} \cup {h \in {hh[1], hh[2]} : ~Scoped(h)})}}
+         : sp \in {RandomElement(Spellings)}, sh1 \in {RandomElement({"single", "chain"})},
+           sh2 \in {RandomElement({"single", "chain", "self", "cyc2", "cyc3", "lasso", "dang1", "dang"})},
+           hh \in {RandomElement(TwinScopes(k))}, nest \in {RandomElement(PosPairs(k))}}
+SampleTwins(k, n) == UNION {SampleTwin(k) : i \in 1..n}
+SampleAugDev == {RandomElement(Variants(AugDevInst(a2, a3, used, self, sp)))
+                 : a2 \in {RandomElement(Acts)}, a3 \in {RandomElement(Acts)}, used \in {RandomElement(BOOLEAN)},
+                   self \in {RandomElement(BOOLEAN)}, sp \in {RandomElement({"u", "o"})}}
+
+\* ---- seeded combinations (code -> model): one instance of each of four families merged into one set of modules
+\* (grouping graph or augment/deviation case, typedef graph, identity graph, feature graph).  Most instances of the
+\* families are erroneous: three times out of four a component is redrawn until it is valid, so that a good share of
+\* the combinations compiles.  Components keep all three modules.
 Merge(A, B) == [A EXCEPT !.fam = "combo", !.shape = A.shape \o "&" \o B.shape, !.imp = A.imp \cup B.imp, !.defs = A.defs \cup B.defs,
                          !.roots = A.roots \cup B.roots, !.augs = A.augs \cup B.augs, !.devs = A.devs \cup B.devs, !.off = A.off \cup B.off]
-\* (most instances of the families are erroneous: every component is drawn from the valid ones with
-\* probability 3/4, so that a good share of the combinations compiles)
+Plain(k) == DefInst(k, "single", [n \in {"a"} |-> "m1"], <<[n \in {"a"} |-> "direct"], "leaf">>, "m1", "m1", TRUE, {}, "u")
+RECURSIVE Draw(_, _, _, _)
+Draw(k, Places, ok, fuel) ==
+  LET X == IF k = "grouping" /\ RandomElement(1..3) = 1 THEN SampleAugDev ELSE SampleDef(k, RandomElement(ShapesOf(k)), Places) IN
+  IF fuel = 0 THEN {Plain(k)}
+  ELSE IF \E I \in X : I.mods = Mods /\ (ok => Verdict(I) = "ok") THEN X ELSE Draw(k, Places, ok, fuel - 1)
 Combos(n, Places) ==
-  LET G == Full(AllShapes("grouping", Places) \cup AugDevFamily)  T == Full(AllShapes("typedef", Places))
-      D == Full(AllShapes("identity", Places))  F == Full(AllShapes("feature", Places))
-      Ok(X) == {I \in X : Verdict(I) = "ok"}
-      Gk == Ok(G)  Tk == Ok(T)  Dk == Ok(D)  Fk == Ok(F)
-      Draw(X, Xk) == IF RandomElement(1..4) > 1 THEN RandomElement(Xk) ELSE RandomElement(X)
-  IN {Merge(Merge(Draw(G, Gk), Draw(T, Tk)), Merge(Draw(D, Dk), Draw(F, Fk))) : i \in 1..n}
+  UNION {{Merge(Merge(g, t), Merge(d, f)) : g \in Draw("grouping", Places, RandomElement(1..4) > 1, 40), t \in Draw("typedef", Places, RandomElement(1..4) > 1, 40),
+                                            d \in Draw("identity", Places, RandomElement(1..4) > 1, 40), f \in Draw("feature", Places, RandomElement(1..4) > 1, 40)}
+         : i \in 1..n}
 
 \* ---- chunks: <<family, shape, size>>, size "s" = two modules only (quick), "l" = three
 AllPlaces(sz) == IF sz = "s" THEN {"m1", "m2"} ELSE Mods
